@@ -15,10 +15,10 @@
     b <start> <stop>
 -/
 import Influx.Proto
-import Influx.Model.WindowAggVal
+import Influx.Model.WindowAggWire
 import Influx.Spec.C20
 
-open Influx Influx.Proto Influx.WindowAgg
+open Influx Influx.Proto Influx.WindowAgg Influx.WindowAgg.Wire
 
 namespace Influx.Drv.C20
 
@@ -33,45 +33,6 @@ def Agg.name : Agg → String
 def parseTyp : String → Option Typ
   | "f" => some .f | "i" => some .i | "u" => some .u | "s" => some .s | "b" => some .b | _ => none
 
-def parseVal (s : String) : Option Val :=
-  match s.toList with
-  | 'f' :: r => (hex64 (String.ofList r)).map fun n => .f (UInt64.ofNat n)
-  | 'i' :: r => (String.ofList r).toInt?.map .i
-  | 'u' :: r => (String.ofList r).toNat?.map .u
-  | 'x' :: r => (hexDecode (if r.isEmpty then "-" else String.ofList r)).map fun _ => .s (String.ofList r)   -- strings stay hex
-  | ['b', '0'] => some (.b false)
-  | ['b', '1'] => some (.b true)
-  | _ => none
-
-def showVal : Val → String
-  | .f b => "f" ++ toHex64 b.toNat
-  | .i v => "i" ++ toString v
-  | .u v => "u" ++ toString v
-  | .s x => "x" ++ x
-  | .b x => if x then "b1" else "b0"
-
-def typOf : Val → Typ
-  | .f _ => .f | .i _ => .i | .u _ => .u | .s _ => .s | .b _ => .b
-
-/-- shards separated by a slash, a dash for an empty shard: `3,2 / - / 4` ↦ [[3,2],[],[4]] -/
-def parseShape (s : String) : Option (List (List Nat)) :=
-  (s.splitOn "/").mapM parseNats
-
-/-- cut `pts` into arrays of the given lengths; `none` unless the lengths add up and are positive -/
-def cut {β} : List Nat → List β → Option (List (List β) × List β)
-  | [], pts => some ([], pts)
-  | n :: ns, pts =>
-    if n = 0 then cut ns pts          -- `0`: a shard whose cursor is empty (no array)
-    else if pts.length < n then none
-    else (cut ns (pts.drop n)).map fun (cs, r) => (pts.take n :: cs, r)
-
-def cutShards {β} : List (List Nat) → List β → Option (List (List (List β)))
-  | [], pts => if pts.isEmpty then some [] else none
-  | sh :: shs, pts =>
-    match cut sh pts with
-    | none => none
-    | some (cs, r) => (cutShards shs r).map (cs :: ·)
-
 structure AggOp where
   agg : Agg
   typ : Typ
@@ -84,10 +45,6 @@ structure AggOp where
 inductive Op where
   | agg (o : AggOp)
   | win (every period offset t k : Int)
-
-def sortedTs : List Int → Bool
-  | a :: b :: r => decide (a ≤ b) && sortedTs (b :: r)
-  | _ => true
 
 def parseOp : List String → Option Op
   | ["agg", a, ty, e, off, shape, ts, vs] => do
@@ -112,26 +69,6 @@ def parseOp : List String → Option Op
     let k ← k.toInt?
     if p < 0 then none else some (.win e p off t k)
   | _ => none
-
-def showArr (a : List (Pt Val)) : String :=
-  ",".intercalate (a.map fun p => toString p.1 ++ ":" ++ showVal p.2)
-
-def showArrs (as : List (List (Pt Val))) : String :=
-  if as.isEmpty then "ok -" else "ok " ++ "|".intercalate (as.map showArr)
-
-def parsePt (s : String) : Option (Pt Val) :=
-  match s.splitOn ":" with
-  | [t, v] => do
-    let t ← t.toInt?
-    let v ← parseVal v
-    some (t, v)
-  | _ => none
-
-def parseArrs (s : String) : Option (List (List (Pt Val))) :=
-  if s = "ok -" then some []
-  else match s.splitOn " " with
-    | ["ok", body] => (body.splitOn "|").mapM fun a => (a.splitOn ",").mapM parsePt
-    | _ => none
 
 def blockSize : Nat := 1000   -- storage/reads MaxPointsPerBlock
 
